@@ -17,7 +17,7 @@ func envNoop(name string, fn *ssa.Function) bool {
 	if !strings.HasPrefix(name, ibcgo) && !strings.HasPrefix(name, "(*"+ibcgo) && !strings.HasPrefix(name, "("+ibcgo) {
 		return false
 	}
-	if strings.Contains(name, "/internal/telemetry.") {
+	if strings.Contains(name, "/telemetry.") {
 		return true
 	}
 	n := fn.Name()
@@ -64,6 +64,22 @@ func init() {
 	})
 	reg("github.com/cosmos/gogoproto/proto.EnumName", func(e *Engine, fn *ssa.Function, a []Value) Value { return StrConst("<enum>") })
 	reg("github.com/cosmos/gogoproto/proto.CompactTextString", func(e *Engine, fn *ssa.Function, a []Value) Value { return StrConst("<proto>") })
+	// JSON side of the proto codec: decoding relayer-supplied bytes is modelled as failing (the code paths that
+	// only run after a successful JSON decode can only reject more); encoding is an uninterpreted function.
+	reg("(*github.com/cosmos/cosmos-sdk/codec.ProtoCodec).UnmarshalJSON", func(e *Engine, fn *ssa.Function, a []Value) Value {
+		e.note("ProtoCodec.UnmarshalJSON modelled as returning an error (JSON decoding of untrusted bytes is outside the claim)")
+		return e.newErr("json")
+	})
+	reg("(*github.com/cosmos/cosmos-sdk/codec.ProtoCodec).MustMarshalJSON", func(e *Engine, fn *ssa.Function, a []Value) Value {
+		iv, _ := a[1].(*IfaceVal)
+		if iv == nil {
+			return StrConst("null")
+		}
+		if p, ok := iv.V.(*PtrVal); ok && p != nil {
+			return UF("json_enc", StrS, e.encode(load(p.L), p.L.T, shortType(p.L.T)))
+		}
+		panic(inconclusive{"MustMarshalJSON of non-pointer"})
+	})
 	reg(ibcgo+"modules/core/keeper.isEmpty", func(e *Engine, fn *ssa.Function, a []Value) Value {
 		return BoolConst(isNilVal(a[0]))
 	})
